@@ -97,6 +97,13 @@ fn main() {
             Some("determinism") => selftest_determinism(args.get(3).map(|s| s.as_str()).unwrap_or("quick")),
             _ => usage(),
         },
+        "xval-dump" => {
+            let dir = std::path::PathBuf::from(args.get(2).unwrap_or_else(|| usage()));
+            let n_synth: u64 = args.get(3).and_then(|v| v.parse().ok()).unwrap_or(2000);
+            let n = tzsim::xval_dump(&dir, seed(), n_synth);
+            println!("xval-dump: {} files written to {}", n, dir.display());
+            0
+        }
         "dump" => {
             let sub = args.get(2).map(|s| s.as_str()).unwrap_or("");
             let tier = args.get(3).map(|s| s.as_str()).unwrap_or("quick");
